@@ -106,6 +106,177 @@ pub fn run_one(spec: &SessionSpec, timeout: Duration) -> Result<SessionResult, W
     }
 }
 
+/// Driver-side handle of a fork server (see zygote.rs).
+pub struct Zygote {
+    child: std::process::Child,
+    stdin: std::process::ChildStdin,
+    stdout: std::process::ChildStdout,
+    stderr_tail: std::sync::Arc<Mutex<Vec<u8>>>,
+    dead: bool,
+}
+
+impl Zygote {
+    pub fn spawn() -> Result<Zygote, WorkerError> {
+        use std::os::unix::process::CommandExt;
+        let exe = std::env::current_exe().expect("current_exe");
+        let mut cmd = Command::new(exe);
+        cmd.arg("zygote")
+            .env_clear()
+            .env("VERIF_DIR", verif_dir())
+            .env("VERIF_REPO", repo_dir())
+            .current_dir(repo_dir())
+            .process_group(0)
+            .stdin(Stdio::piped())
+            .stdout(Stdio::piped())
+            .stderr(Stdio::piped());
+        let mut child = cmd.spawn().map_err(|e| WorkerError::Died(format!("spawn zygote: {e}")))?;
+        let stdin = child.stdin.take().unwrap();
+        let stdout = child.stdout.take().unwrap();
+        let mut stderr = child.stderr.take().unwrap();
+        let tail = std::sync::Arc::new(Mutex::new(Vec::new()));
+        let t2 = tail.clone();
+        std::thread::spawn(move || {
+            let mut buf = [0u8; 4096];
+            loop {
+                match std::io::Read::read(&mut stderr, &mut buf) {
+                    Ok(0) | Err(_) => break,
+                    Ok(n) => {
+                        let mut t = t2.lock().unwrap();
+                        t.extend_from_slice(&buf[..n]);
+                        let len = t.len();
+                        if len > 16384 {
+                            t.drain(..len - 16384);
+                        }
+                    }
+                }
+            }
+        });
+        Ok(Zygote { child, stdin, stdout, stderr_tail: tail, dead: false })
+    }
+
+    fn kill(&mut self) {
+        self.dead = true;
+        unsafe {
+            libc::kill(-(self.child.id() as i32), libc::SIGKILL);
+        }
+        let _ = self.child.kill();
+        let _ = self.child.wait();
+    }
+
+    fn read_exact_deadline(&mut self, buf: &mut [u8], deadline: Instant) -> Result<(), &'static str> {
+        use std::os::unix::io::AsRawFd;
+        let fd = self.stdout.as_raw_fd();
+        let mut off = 0;
+        while off < buf.len() {
+            let now = Instant::now();
+            if now >= deadline {
+                return Err("timeout");
+            }
+            let ms = (deadline - now).as_millis().min(1000) as i32;
+            let mut pfd = libc::pollfd { fd, events: libc::POLLIN, revents: 0 };
+            let r = unsafe { libc::poll(&mut pfd, 1, ms.max(1)) };
+            if r == 0 {
+                continue;
+            }
+            if r < 0 {
+                if std::io::Error::last_os_error().kind() == std::io::ErrorKind::Interrupted {
+                    continue;
+                }
+                return Err("poll");
+            }
+            let n = unsafe { libc::read(fd, buf[off..].as_mut_ptr().cast(), buf.len() - off) };
+            if n == 0 {
+                return Err("eof");
+            }
+            if n < 0 {
+                if std::io::Error::last_os_error().kind() == std::io::ErrorKind::Interrupted {
+                    continue;
+                }
+                return Err("read");
+            }
+            off += n as usize;
+        }
+        Ok(())
+    }
+
+    fn take_stderr_tail(&self) -> String {
+        // give the collector thread a moment to drain what the dying child wrote
+        std::thread::sleep(Duration::from_millis(5));
+        let mut t = self.stderr_tail.lock().unwrap();
+        let s = String::from_utf8_lossy(&t).to_string();
+        t.clear();
+        let lines: Vec<&str> = s.lines().rev().take(12).collect();
+        lines.into_iter().rev().collect::<Vec<_>>().join("\n")
+    }
+
+    pub fn run(&mut self, spec: &SessionSpec, timeout: Duration) -> Result<SessionResult, WorkerError> {
+        let json = serde_json::to_vec(spec).expect("serialise spec");
+        let mut frame = Vec::with_capacity(json.len() + 4);
+        frame.extend_from_slice(&(json.len() as u32).to_le_bytes());
+        frame.extend_from_slice(&json);
+        if self.stdin.write_all(&frame).and_then(|_| self.stdin.flush()).is_err() {
+            self.kill();
+            return Err(WorkerError::Died(format!("zygote pipe closed; stderr: {}", self.take_stderr_tail())));
+        }
+        let deadline = Instant::now() + timeout;
+        let mut result: Option<Vec<u8>> = None;
+        loop {
+            let mut tag = [0u8; 1];
+            if let Err(e) = self.read_exact_deadline(&mut tag, deadline) {
+                self.kill();
+                return if e == "timeout" { Err(WorkerError::Hung(format!("no result after {timeout:?}"))) } else { Err(WorkerError::Died(format!("zygote protocol ({e}); stderr: {}", self.take_stderr_tail()))) };
+            }
+            match tag[0] {
+                b'R' => {
+                    let mut len = [0u8; 4];
+                    let mut ok = self.read_exact_deadline(&mut len, deadline).is_ok();
+                    let mut buf = vec![];
+                    if ok {
+                        buf = vec![0u8; u32::from_le_bytes(len) as usize];
+                        ok = self.read_exact_deadline(&mut buf, deadline).is_ok();
+                    }
+                    if !ok {
+                        self.kill();
+                        return Err(WorkerError::Garbled("truncated result frame".into()));
+                    }
+                    result = Some(buf);
+                }
+                b'S' => {
+                    let mut code = [0u8; 4];
+                    if self.read_exact_deadline(&mut code, deadline).is_err() {
+                        self.kill();
+                        return Err(WorkerError::Garbled("truncated status frame".into()));
+                    }
+                    let code = i32::from_le_bytes(code);
+                    let tail = self.take_stderr_tail();
+                    return match (code, result) {
+                        (0, Some(buf)) => serde_json::from_slice::<SessionResult>(&buf).map_err(|e| WorkerError::Garbled(format!("{e}"))),
+                        (0, None) => Err(WorkerError::Garbled("child exited 0 without a result".into())),
+                        (c, _) if c >= 1000 => Err(WorkerError::Died(format!("signal: {} ; stderr: {tail}", c - 1000))),
+                        (c, _) => Err(WorkerError::Died(format!("exit status: {c}; stderr: {tail}"))),
+                    };
+                }
+                _ => {
+                    self.kill();
+                    return Err(WorkerError::Garbled("unexpected byte on the zygote pipe".into()));
+                }
+            }
+        }
+    }
+}
+
+impl Drop for Zygote {
+    fn drop(&mut self) {
+        if !self.dead {
+            self.kill();
+        }
+    }
+}
+
+pub fn use_zygote() -> bool {
+    std::env::var_os("VRL_SIM_NO_ZYGOTE").is_none()
+}
+
 /// Run all sessions, `par` at a time. `on_done(index, result)` is called from worker threads in completion
 /// order; results are also returned in input order.
 pub fn run_all<F>(specs: &[SessionSpec], par: usize, timeout: Duration, on_done: F) -> Vec<Result<SessionResult, WorkerError>>
@@ -116,14 +287,27 @@ where
     let results: Mutex<Vec<Option<Result<SessionResult, WorkerError>>>> = Mutex::new((0..specs.len()).map(|_| None).collect());
     std::thread::scope(|s| {
         for _ in 0..par.max(1).min(specs.len().max(1)) {
-            s.spawn(|| loop {
-                let i = next.fetch_add(1, Ordering::SeqCst);
-                if i >= specs.len() {
-                    break;
+            s.spawn(|| {
+                let mut zygote: Option<Zygote> = None;
+                loop {
+                    let i = next.fetch_add(1, Ordering::SeqCst);
+                    if i >= specs.len() {
+                        break;
+                    }
+                    let r = if use_zygote() {
+                        if zygote.as_ref().is_none_or(|z| z.dead) {
+                            zygote = Zygote::spawn().ok();
+                        }
+                        match zygote.as_mut() {
+                            Some(z) => z.run(&specs[i], timeout),
+                            None => run_one(&specs[i], timeout),
+                        }
+                    } else {
+                        run_one(&specs[i], timeout)
+                    };
+                    on_done(i, &r);
+                    results.lock().unwrap()[i] = Some(r);
                 }
-                let r = run_one(&specs[i], timeout);
-                on_done(i, &r);
-                results.lock().unwrap()[i] = Some(r);
             });
         }
     });
